@@ -21,8 +21,8 @@ FLAGS = ["q_splitlines_unicode", "q_next_line_hash_only", "q_file_hash_only", "q
 HEADER = ("From Coq Require Import NArith.\nFrom TL Require Import Lib.Base Gen.IgnoreGen Model.PyStr Model.Ignore Model.IgnoreSpec Model.IgnoreRun "
           "Actual.IgnoreActual.\n")
 # candidate indices of Model/IgnoreRun.v: candidates
-C_ACTUAL, C_OFF0, C_SHARED, C_ON0, C_IDEAL = 0, 1, 8, 9, 16
-N_CANDS = 17
+C_ACTUAL, C_OFF0, C_SHARED, C_IDEAL = 0, 1, 8, 9
+N_CANDS = 10
 
 # rule ids used for queries at the unit level (a spread over linters, with and without a dotted suffix)
 RULES = ["nesting.excessive-depth", "magic-numbers.numeric-literal", "srp.violation", "improper-logging.print-statement",
@@ -150,16 +150,19 @@ def names_text(r, target, positive, space_form=False):
 CODE_LINES = ["x = 4242", "    return compute(a, b)", "print('value')", "", "        ", "# plain comment", "s = 'text # not a comment'",
               "const a = 1; // note", "    if (a) {", "}", "def f(a, b):", "class Foo:", "    total += item.price * 3  # running sum",
               "let v = s.unwrap();", "    y = d[key]  # noqa", "caf\u00e9 = '\u4e2d\u6587'", "\tz = [1, 2, 3]", "fn main() {", "    pass"]
+# code lines carrying one of str.splitlines' extra boundaries (legal in source text; the analysers do not break lines there)
+BREAK_LINES = ["\x0c", "x = 1\x0c", "s = 'a\u2028b'", "# page\x0b", "t = '\x1c'", "u = '\x85'", "v = 2  # \x1d\x1e"]
 INDENTS = ["", "", "    ", "        ", "\t", "  "]
 
 
 def gen_afile(r, styles):
     """an abstract file with a mix of directive kinds; returns (alines, rules worth querying)"""
     n = r.choice([3, 5, 8, 12, 16, 22, 30])
+    breaks = r.random() < 0.12
     mentioned = []
 
     def pick_names(space_form=False):
-        if r.random() < 0.15:
+        if r.random() < 0.07:
             return None
         t = r.choice(RULES)
         mentioned.append(t)
@@ -186,7 +189,7 @@ def gen_afile(r, styles):
         elif x < 0.40:
             a.append(["End", r.choice(INDENTS), st])
         else:
-            a.append(["Plain", r.choice(CODE_LINES)])
+            a.append(["Plain", r.choice(BREAK_LINES) if breaks and r.random() < 0.25 else r.choice(CODE_LINES)])
     rules = list(dict.fromkeys(mentioned))[:3]
     while len(rules) < 3:
         t = r.choice(RULES)
@@ -219,10 +222,12 @@ def unit_cases(seed, n):
     cases = []
     for i in range(n):
         r = rng_for(seed, PROP, "unit", i)
-        styles = r.choice([["Hash"], ["Slashes"], ["Hash", "Slashes"]])
+        styles = r.choice([["Hash"], ["Hash"], ["Hash"], ["Slashes"], ["Hash", "Slashes"]])
         a, rules = gen_afile(r, styles)
-        qs = [(k + 1, rule) for k, l in enumerate(a) if is_code(l) for rule in rules]
-        cases.append({"kind": "unit", "i": i, "afile": a, "content": render(a), "queries": qs, "pipes": ["PShared"] * len(qs)})
+        qlines = [k + 1 for k, l in enumerate(a) if is_code(l)]
+        qs = [(ln, rule) for ln in qlines for rule in rules]
+        cases.append({"kind": "unit", "i": i, "afile": a, "content": render(a), "queries": qs, "pipes": ["PShared"] * len(qs),
+                      "cross": (qlines, rules)})
     return cases
 
 
@@ -280,7 +285,7 @@ def raw_cases(seed, n):
         if r.random() < 0.1:
             rules = rules + ["lazy-ignores.unjustified", ""]
         qs = [(ln, rule) for ln in lines for rule in rules]
-        cases.append({"kind": "raw", "i": i, "content": content, "queries": qs, "pipes": ["PShared"] * len(qs)})
+        cases.append({"kind": "raw", "i": i, "content": content, "queries": qs, "pipes": ["PShared"] * len(qs), "cross": (lines, rules)})
     return cases
 
 
@@ -351,6 +356,8 @@ def base_file(r, lang):
         for l in blocks[bi]:
             lines.extend(l.replace("{n}", str(n)).split("\n"))
         lines.extend([""] * r.choice([1, 2]))
+        if lang == "py" and r.random() < 0.06:
+            lines.append("\x0c")   # page break: white space for Python, a line boundary for str.splitlines
     if r.random() < 0.3:   # push code beyond the header window
         lines = [""] * r.randint(8, 12) + lines
     return lines
@@ -482,11 +489,110 @@ def run_obs(case):
             "afile": afile, "content": content, "queries": [(sv[1], sv[0]) for sv in shifted],
             "pipes": [f'(pipeline_of {coq.coq_string(PKG_OF_PREFIX[prefix_of(sv[0])])} {coq.coq_string(lang)})' for sv in shifted],
             "pkgs": [PKG_OF_PREFIX[prefix_of(sv[0])] for sv in shifted],
-            "impl": [not k for k in kept], "new_violations": remaining, "failures": fails0 + fails1, "v0": v0, "v1": v1}
+            "impl": [not k for k in kept], "new_violations": remaining, "failures": fails0 + fails1, "v0": v0, "v1": v1, "base": base,
+            "via": "cli" if isinstance(case["i"], int) and case["i"] % 18 == 0 else "api",
+            "obs_case": {"i": case["i"], "lang": lang, "base": base, "seed": case["seed"]}}
+
+
+# ------------------------------------------------------------------ file-pattern level (validated only: fnmatch is an oracle)
+CONFIG_KEY = {"magic_numbers": "magic-numbers", "print_statements": "print-statements", "nesting": "nesting", "srp": "srp",
+              "performance": "performance", "method_property": "method-property", "lbyl": "lbyl", "unwrap_abuse": "unwrap-abuse",
+              "clone_abuse": "clone-abuse", "blocking_async": "blocking-async"}
+# how the linter-level `ignore:` list is treated by the current tree where it deviates from "glob pattern matching the file"
+PATTERN_MODE = {"nesting": "never", "performance": "never", "lbyl": "never",
+                "srp": "substring", "unwrap_abuse": "substring", "clone_abuse": "substring", "blocking_async": "substring"}
+CLI_CMD = {"nesting": "nesting", "magic_numbers": "magic-numbers", "srp": "srp", "print_statements": "improper-logging", "performance": "perf",
+           "method_property": "method-property", "lbyl": "lbyl", "unwrap_abuse": "unwrap-abuse", "clone_abuse": "clone-abuse",
+           "blocking_async": "blocking-async"}
+
+
+def _lint_in(root: Path, f: Path, cfg: dict):
+    ensure_repo_on_path()
+    from src.orchestrator.core import Orchestrator
+    from harness.common import install_failure_tap
+    install_failure_tap()
+    vs = Orchestrator(project_root=root, config=cfg).lint_file(f)
+    return sorted([v.rule_id, v.line, v.column] for v in vs if prefix_of(v.rule_id) in PKG_OF_PREFIX)
+
+
+def run_patterns(case):
+    """repository-level (.thailintignore) and linter-level (`ignore:` in the linter's config section) patterns on one file"""
+    lang, base = case["lang"], case["base"]
+    ext = LANGS[lang][1]
+    text = "".join(l + "\n" for l in base)
+    out = []
+    with scratch_dir("tv-c04-pat-") as d:
+        name = "case" + ext
+
+        def lint(cfg, ignorefile=None):
+            with scratch_dir("tv-c04-patr-") as root:
+                f = root / name
+                f.write_text(text, encoding="utf-8")
+                if ignorefile is not None:
+                    (root / ".thailintignore").write_text(ignorefile)
+                return _lint_in(root, f, cfg)
+        v0 = lint({})
+        if not v0:
+            return {"skip": True, "results": []}
+        pats = [(name, True), ("*" + ext, True), ("zzz/*" + ext, False)]
+        for pat, matches in pats:
+            got = lint({}, pat + "\n")
+            out.append({"level": "repo", "pattern": pat, "matches": matches, "before": v0, "after": got, "expected": [] if matches else v0, "pkg": None})
+        for pkg in sorted({PKG_OF_PREFIX[prefix_of(v[0])] for v in v0} & set(CONFIG_KEY)):
+            mine = [v for v in v0 if PKG_OF_PREFIX[prefix_of(v[0])] == pkg]
+            rest = [v for v in v0 if PKG_OF_PREFIX[prefix_of(v[0])] != pkg]
+            for pat, matches in pats:
+                got = lint({CONFIG_KEY[pkg]: {"ignore": [pat]}})
+                out.append({"level": "linter", "pkg": pkg, "pattern": pat, "matches": matches, "literal": "*" not in pat and matches,
+                            "before": v0, "after": got, "expected": rest if matches else v0, "mine": mine})
+    return {"skip": False, "results": out, "failures": drain_failures(), "text": text, "lang": lang}
+
+
+def decide_patterns(chk, res):
+    if res.get("failures"):
+        chk.violation({"reason": "a rule failed internally (swallowed exception) during a pattern run", "failures": res["failures"][:3]})
+    for r in res["results"]:
+        chk.count([res["text"], r["level"], r["pkg"], r["pattern"]], r["matches"])
+        chk.dist(f"pattern:{r['level']}:{r['pkg'] or 'repo'}:{'match' if r['matches'] else 'nomatch'}")
+        chk.traces_validated += 1
+        if r["after"] == r["expected"]:
+            continue
+        info = {"reason": "an ignore pattern did not remove exactly the violations it covers", "level": "pattern:" + r["level"], "linter": r["pkg"],
+                "pattern": r["pattern"], "file": "case" + LANGS[res["lang"]][1], "content": res["text"], "before": r["before"], "after": r["after"], "expected": r["expected"]}
+        mode = PATTERN_MODE.get(r["pkg"])
+        if r["level"] == "linter" and mode == "never" and r["after"] == r["before"]:
+            chk.known_finding(f"linter_ignore_never[{r['pkg']}]", info)
+        elif r["level"] == "linter" and mode == "substring" and r["after"] == r["before"] and not r["literal"]:
+            chk.known_finding(f"linter_ignore_substring[{r['pkg']}]", info)
+        else:
+            chk.violation(info)
+
+
+def run_cli_pair(case):
+    """the observe_at of the property: `thailint <linter> --format json` before and after, for the linter of the target violation"""
+    pkg = PKG_OF_PREFIX[prefix_of(case["target"][0])]
+    cmd = CLI_CMD.get(pkg)
+    if not cmd:
+        return None
+    ext = LANGS[case["lang"]][1]
+    res = []
+    with scratch_dir("tv-c04-cli-") as d:
+        for tag, text in (("before", "".join(l + "\n" for l in case["base"])), ("after", case["content"])):
+            f = d / (tag + ext)
+            f.write_text(text, encoding="utf-8")
+            rc, so, se = run_cli([cmd, "--format", "json", str(f)], cwd=d)
+            vs = parse_json_violations(so)
+            if vs is None or rc not in (0, 1):
+                return {"error": f"{tag}: rc={rc} stdout={so[:200]} stderr={se[-300:]}", "cmd": cmd}
+            res.append(sorted([v["rule_id"], v["line"], v["column"]] for v in vs if PKG_OF_PREFIX.get(prefix_of(v["rule_id"])) == pkg))
+    return {"cmd": cmd, "pkg": pkg, "before": res[0], "after": res[1]}
 
 
 # ------------------------------------------------------------------ judging in Coq
 def coq_queries(case):
+    if case.get("cross"):
+        ls, rs = case["cross"]
+        return f"(cross {coq.coq_list([str(x) for x in ls])} {coq.coq_list([cstr(x) for x in rs])})"
     return coq.coq_list([f"({ln}, {cstr(rule)}, {p})" for (ln, rule), p in zip(case["queries"], case["pipes"])])
 
 
@@ -498,12 +604,62 @@ def coq_judge_line(case, cands):
             f"{coq_queries(case)} {impl}).")
 
 
-def judge(cases, workdir: Path, cands: str, budget=60000):
+_TH = None   # theories directory used for evaluation (None: the live development)
+MODEL_FILES = ["Lib/Base.v", "Lib/GenTypes.v", "Gen/IgnoreGen.v", "Model/PyStr.v", "Model/Ignore.v", "Model/IgnoreSpec.v", "Actual/IgnoreActual.v",
+               "Model/IgnoreRun.v"]
+
+
+def eval_shards_at(th, workdir: Path, header: str, shards):
+    if th is None:
+        return coq.eval_shards(workdir, header, shards)
+    import subprocess
+    from concurrent.futures import ThreadPoolExecutor
+    workdir.mkdir(parents=True, exist_ok=True)
+    jobs = []
+    for i, body in enumerate(shards):
+        f = workdir / f"cases_{i}.v"
+        f.write_text(header + "\n" + body + "\n")
+        jobs.append(f)
+
+    def one(f):
+        return subprocess.run(["timeout", "600", "coqc", "-Q", str(th), "TL", "-w", "-notation-overridden,-abstract-large-number", str(f)],
+                              capture_output=True, text=True, cwd=str(f.parent))
+    with ThreadPoolExecutor(max_workers=8) as ex:
+        outs = list(ex.map(one, jobs))
+    res = []
+    for pr, f in zip(outs, jobs):
+        if pr.returncode != 0:
+            raise RuntimeError(f"coqc failed on {f.name} (rc={pr.returncode}): {pr.stderr[-1500:]}")
+        res.append(coq.parse_nat_lists(pr.stdout))
+    return res
+
+
+def build_snapshot(sd: Path):
+    """a private copy of the model compiled against the last validated generated layer; None when it cannot be built"""
+    import shutil
+    import subprocess
+    snap = coq.COQ / "Gen.expected" / "IgnoreGen.v.txt"
+    if not snap.exists():
+        return None
+    th = sd / "theories"
+    for rel in MODEL_FILES:
+        (th / rel).parent.mkdir(parents=True, exist_ok=True)
+        shutil.copy(snap if rel == "Gen/IgnoreGen.v" else coq.TH / rel, th / rel)
+    for rel in MODEL_FILES:
+        pr = subprocess.run(["timeout", "300", "coqc", "-Q", str(th), "TL", "-w", "-notation-overridden", str(th / rel)], capture_output=True, text=True, cwd=str(sd))
+        if pr.returncode != 0:
+            return None
+    return th
+
+
+def judge(cases, workdir: Path, cands: str, nshards=16):
     """shards balanced by text size x queries; returns one parsed verdict per case"""
+    weight = lambda c: (len(c["content"]) + 200) * (len(c["queries"]) + 6)
+    budget = max(1, sum(weight(c) for c in cases) // nshards)
     shards, index, cur, cur_idx, load = [], [], [], [], 0
     for j, c in enumerate(cases):
-        w = (len(c["content"]) + 200) * (len(c["queries"]) + 2)
-        if cur and load + w > budget * 40:
+        w = weight(c)
+        if cur and load + w > budget:
             shards.append("\n".join(cur))
             index.append(cur_idx)
             cur, cur_idx, load = [], [], 0
@@ -513,7 +669,7 @@ def judge(cases, workdir: Path, cands: str, budget=60000):
     if cur:
         shards.append("\n".join(cur))
         index.append(cur_idx)
-    outs = coq.eval_shards(workdir, HEADER, shards)
+    outs = eval_shards_at(_TH, workdir, HEADER, shards)
     verdicts = [None] * len(cases)
     for chunk, out in zip(index, outs):
         if len(out) != len(chunk):
@@ -531,12 +687,22 @@ def judge_leaf(strings, workdir: Path):
             exp = coq.coq_list([coq.coq_list([cstr(x) for x in grp]) for grp in leaf_expected(s)])
             body.append(f"Eval vm_compute in (leaf_check (leaf {cstr(s)}) {exp}).")
         shards.append("\n".join(body))
-    outs = coq.eval_shards(workdir, HEADER, shards)
+    outs = eval_shards_at(_TH, workdir, HEADER, shards)
     return [o for out in outs for o in out]
 
 
 # ------------------------------------------------------------------ decision
-def decide(chk, case, ver, agree):
+def reduced(case, ver):
+    """the case restricted to the queries that pass 1 could not settle (impl <> spec or impl <> claimed model)"""
+    keep = [k for k, row in enumerate(ver[1:]) if not (row[0] and row[2])] or [0]
+    c = {k: v for k, v in case.items() if k != "cross"}
+    for key in ("queries", "pipes", "impl", "pkgs"):
+        if key in case:
+            c[key] = [case[key][k] for k in keep]
+    return c
+
+
+def decide(chk, case, ver, agree, full_vector, note=""):
     """ver: full-candidate verdict of one structured case (header + one row per query)"""
     head, rows = ver[0], ver[1:]
     if not (head[0] and head[1] and head[2]):
@@ -544,16 +710,19 @@ def decide(chk, case, ver, agree):
                                    f"(render_eq={head[0]} file_ok={head[1]} targets_ok={head[2]})", "content": case["content"]})
         return
     for k, bits in enumerate(rows):
-        spec_ok, ideal_ok, cand = bool(bits[0]), bool(bits[1]), [bool(b) for b in bits[2:]]
-        for ci in range(len(agree)):
-            agree[ci] = agree[ci] and cand[ci]
+        spec_ok, ideal_ok = bool(bits[0]), bool(bits[1])
+        cand, inclass = [bool(b) for b in bits[2:2 + N_CANDS]], [bool(b) for b in bits[2 + N_CANDS:]]
+        if full_vector:
+            for ci in range(N_CANDS):
+                agree[ci] = agree[ci] and cand[ci]
         if spec_ok:
             continue
         ln, rule = case["queries"][k]
-        info = {"reason": "suppression differs from what the directives in scope name", "level": case["kind"], "line": ln, "rule_id": rule,
+        info = {"reason": "suppression differs from what the directives in scope name" + note, "level": case["kind"], "line": ln, "rule_id": rule,
                 "suppressed_by_impl": case["impl"][k], "content": case["content"], "case": {kk: case[kk] for kk in ("kind", "i", "afile") if kk in case}}
         if case["kind"] == "obs":
-            info.update({"lang": case["lang"], "form": case["form"], "target": case["target"], "violations_before": case["v0"], "violations_after": case["v1"]})
+            info.update({"lang": case["lang"], "form": case["form"], "target": case["target"], "violations_before": case["v0"], "violations_after": case["v1"],
+                         "obs_case": case["obs_case"]})
         keys = []
         pkg = case.get("pkgs", [None] * len(rows))[k]
         if pkg in NO_INLINE:
@@ -561,10 +730,9 @@ def decide(chk, case, ver, agree):
         elif pkg in OWN_LINE:
             keys = [f"own_line_check_only[{pkg}]"]
         else:
-            # flags whose single removal changes the model's answer on this query ...
-            keys = [FLAGS[f] for f in range(7) if not cand[C_OFF0 + f]]
-            # ... and flags that alone make the ideal model fail it (two listed defects can overlap on one input)
-            keys += [FLAGS[f] for f in range(7) if cand[C_ON0 + f] and FLAGS[f] not in keys]
+            # flags whose single removal changes the model's answer on this query; when several listed defects overlap on the
+            # input (no single removal changes the answer): every flag whose defect class contains the input
+            keys = [FLAGS[f] for f in range(7) if not cand[C_OFF0 + f]] or [FLAGS[f] for f in range(7) if inclass[f]]
         if cand[C_ACTUAL] and ideal_ok and keys:
             for key in keys:
                 chk.known_finding(key, {"line": ln, "rule_id": rule, "content": case["content"], "level": case["kind"]})
@@ -574,12 +742,118 @@ def decide(chk, case, ver, agree):
             chk.violation(info)
 
 
-def _tick(label, t=[None]):
+def evaluate(chk, structured, raws, leafs, p2_cap, th=None, record=True, note=""):
+    """judge every case in Coq and decide (BUILDING.md step 5).  Claimed vector first; the full candidate set only where something has
+    to be explained.  th: theories directory to evaluate with (None: the live one); record: count cases / distributions (off for the
+    fallback round, which re-judges the same cases with the last validated generated layer)"""
+    global _TH
+    _TH = th
+    with scratch_dir("tv-c04-coq-") as wd:
+        try:
+            bad = [l for l in (judge_leaf(leafs, wd / "leaf") if leafs else []) if not all(l)]
+            for l in bad[:3]:
+                chk.correspondence_broken({"level": "leaf", "detail": f"Model/PyStr.v disagrees with CPython: {l} "
+                                           "(order: splitlines, lower, strip, tokens, split, bracket regex, space regex, start regex)"})
+            chk.traces_validated += len(leafs) if record else 0
+            _tick("leaf judging")
+            first = judge(structured, wd / "p1", "(claimed_only ignore_actual)") if structured else []
+            need = [j for j, v in enumerate(first) if not all(v[0]) or any(not (row[0] and row[2]) for row in v[1:])]
+            _tick("pass 1 judging")
+            rawv = judge(raws, wd / "raw", "(claimed_only ignore_actual)") if raws else []
+            _tick("raw judging")
+            raw_bad = [j for j, v in enumerate(rawv) if any(not row[0] for row in v)]
+            mismatch = bool(raw_bad) or any(any(not row[2] for row in first[j][1:]) for j in need)
+            if not mismatch:
+                # single-flag-removal attribution for a bounded number of failing cases and for every case that the defect classes
+                # do not explain; the remaining failures are attributed by defect class (sound by the confinement theorem)
+                by_class = [j for j in need if all(first[j][0]) and all((row[0] and row[2]) or (row[1] and row[2] and any(row[3:]))
+                                                                        for row in first[j][1:])]
+                rest = [j for j in need if j not in set(by_class)]
+                need = rest + by_class[:max(0, p2_cap - len(rest))]
+                class_only = by_class[max(0, p2_cap - len(rest)):]
+            else:
+                class_only = []
+            full_idx = list(range(len(structured))) if mismatch else need
+            # without a mismatch only the failing queries need explaining; with one, everything is re-judged under every candidate
+            p2 = [structured[j] if mismatch else reduced(structured[j], first[j]) for j in full_idx]
+            full = judge(p2, wd / "p2", "(candidates ignore_actual)") if full_idx else []
+            raw_full = judge(raws, wd / "raw2", "(candidates ignore_actual)") if mismatch and raws else []
+            _tick(f"pass 2 judging ({len(full_idx)} cases)")
+        except RuntimeError as e:
+            chk.broken.append(f"Model:evaluation of the ignore model failed{note} ({str(e)[:400]})")
+            first, full_idx, full, rawv, raw_full, raw_bad, mismatch, p2, class_only = [], [], [], [], [], [], False, [], []
+
+    agree = [True] * N_CANDS
+    fullmap = dict(zip(full_idx, zip(p2, full))) if full_idx else {}
+    class_only_set = set(class_only)
+    for j, case in enumerate(structured):
+        if j >= len(first):
+            break
+        a = case["afile"]
+        scoped = any(l[0] != "Plain" for l in a)
+        if record:
+            chk.count([case["content"], case["queries"]], scoped and len(case["queries"]) > 0)
+            chk.dist("level:" + case["kind"])
+            chk.dist("queries", len(case["queries"]))
+            for l in a:
+                if l[0] != "Plain":
+                    nm = l[-1]
+                    chk.dist(f"directive:{l[0]}:{l[2] if l[0] != 'File' else l[1]}:{'bare' if nm is None else 'named'}")
+            if case["kind"] == "obs":
+                chk.dist(f"obs:{case['lang']}:{case['form']}:{case['how']}")
+                for p in set(case["pkgs"]):
+                    chk.dist("obs-linter:" + p)
+            chk.sample({"level": case["kind"], "content": case["content"][:500], "queries": case["queries"][:6], "impl": case["impl"][:6]}, 4)
+            chk.traces_validated += len(case["queries"])
+        if j in fullmap:
+            decide(chk, fullmap[j][0], fullmap[j][1], agree, mismatch, note)
+        elif j in class_only_set:
+            for k, row in enumerate(first[j][1:]):
+                if not row[0]:
+                    pkg = case.get("pkgs", [None] * len(case["queries"]))[k]
+                    keys = ([f"no_inline_support[{pkg}]"] if pkg in NO_INLINE else [f"own_line_check_only[{pkg}]"] if pkg in OWN_LINE
+                            else [FLAGS[f] for f in range(7) if row[3 + f]])
+                    for key in keys:
+                        chk.known_finding(key, {"line": case["queries"][k][0], "rule_id": case["queries"][k][1], "content": case["content"],
+                                                "level": case["kind"], "attributed_by": "defect class"})
+    for j, case in enumerate(raws):
+        if j >= len(rawv):
+            break
+        if record:
+            chk.count([case["content"], case["queries"]], "ignore" in case["content"].lower())
+            chk.dist("level:raw")
+            chk.dist("queries", len(case["queries"]))
+            chk.traces_validated += len(case["queries"])
+        if raw_full:
+            for row in raw_full[j]:
+                for ci in range(N_CANDS):
+                    agree[ci] = agree[ci] and bool(row[ci])
+    if mismatch:
+        alt = [ci for ci in range(1, N_CANDS) if agree[ci] and ci != C_SHARED]
+        names = ["claimed"] + [f"claimed without {f}" for f in FLAGS] + ["claimed flags, all linters on the shared parser", "ideal"]
+        if alt and C_OFF0 <= alt[0] < C_SHARED:
+            chk.notes.append("implementation no longer matches the claimed quirk vector but matches on all cases: " + names[alt[0]] +
+                             " (a listed defect is no longer observed; the theorems hold for every vector)")
+        else:
+            ex = None
+            for j in raw_bad[:1]:
+                k = next(k for k, row in enumerate(rawv[j]) if not row[0])
+                ex = {"content": raws[j]["content"], "line": raws[j]["queries"][k][0], "rule_id": raws[j]["queries"][k][1], "impl": raws[j]["impl"][k]}
+            chk.correspondence_broken({"level": "unit/observable", "detail": "Model/Ignore.v under Actual/IgnoreActual.v disagrees with the implementation "
+                                       "and no candidate vector matches all cases", "example": ex})
+            if ex:   # a concrete text on which the implementation no longer does what the validated model says
+                chk.violation({"reason": "should_ignore_violation no longer agrees with the validated model on this text (malformed-stream case)" + note, **ex})
+    _TH = None
+
+
+def _tick(label, t=[None, None]):
     import os, sys, time
     now = time.time()
+    tm = os.times()
+    cpu = tm.user + tm.system + tm.children_user + tm.children_system
     if os.environ.get("VERIF_TIMING") and t[0] is not None:
-        print(f"[c04 timing] {label}: {now - t[0]:.1f}s", file=sys.stderr)
-    t[0] = now
+        print(f"[c04 timing] {label}: wall {now - t[0]:.1f}s cpu {cpu - t[1]:.1f}s", file=sys.stderr)
+    t[0], t[1] = now, cpu
 
 
 def run(tier: str, seed: int, replay: str | None = None) -> int:
@@ -611,26 +885,32 @@ def run(tier: str, seed: int, replay: str | None = None) -> int:
     _tick("coq build")
     scale = chk.budget_scale()
     quick = tier == "quick"
-    n_unit = (260 if quick else 2600) * scale
-    n_raw = (200 if quick else 2000) * scale
-    n_leaf = (300 if quick else 3000) * scale
-    n_obs = (220 if quick else 2200) * scale
+    n_unit = (220 if quick else 2200) * scale
+    n_raw = (160 if quick else 1600) * scale
+    n_leaf = (240 if quick else 2400) * scale
+    n_obs = (180 if quick else 1800) * scale
+    p2_cap = (60 if quick else 600) * scale
 
     if replay:
         payload = json.loads(Path(replay).read_text())["violation"]
         c = payload.get("case") or {}
-        if "afile" in c:
+        structured, raws, leafs, obs_in, pat_in = [], [], [], [], []
+        if payload.get("obs_case"):
+            obs_in = [payload["obs_case"]]
+        elif str(payload.get("level", "")).startswith("pattern"):
+            pat_in = [{"lang": next(k for k, v in LANGS.items() if payload["file"].endswith(v[1])), "base": payload["content"].split("\n")[:-1]}]
+        elif "afile" in c:
             a = c["afile"]
             structured = [{"kind": "unit", "i": "replay", "afile": a, "content": render(a),
                            "queries": [(payload["line"], payload["rule_id"])], "pipes": ["PShared"]}]
-        else:
-            structured = []
-        raws, leafs, obs_in = [], [], []
+        elif "content" in payload and "line" in payload:
+            raws = [{"kind": "raw", "i": "replay", "content": payload["content"], "queries": [(payload["line"], payload["rule_id"])], "pipes": ["PShared"]}]
     else:
         structured = corpus_cases() + unit_cases(seed, n_unit)
         raws = raw_cases(seed, n_raw)
         leafs = leaf_strings(seed, n_leaf)
         obs_in = obs_cases(seed, n_obs)
+        pat_in = obs_in[:: max(1, len(obs_in) // (6 if quick else 40))]
 
     # implementation runs
     with scratch_dir("tv-c04-disk-") as dd:
@@ -648,6 +928,23 @@ def run(tier: str, seed: int, replay: str | None = None) -> int:
     obs = pool_map(run_obs, obs_in, procs=8) if obs_in else []
     _tick("observable implementation runs")
     for o in obs:
+        if "skip" in o or o.get("via") != "cli":
+            continue
+        c = run_cli_pair(o)
+        if c is None:
+            continue
+        chk.dist("via:cli")
+        pkg = c.get("pkg")
+        api0 = sorted(v[:3] for v in o["v0"] if PKG_OF_PREFIX[prefix_of(v[0])] == pkg)
+        api1 = sorted(v[:3] for v in o["v1"] if PKG_OF_PREFIX[prefix_of(v[0])] == pkg)
+        if "error" in c or c["before"] != api0 or c["after"] != api1:
+            chk.violation({"reason": "the CLI (`thailint <linter> --format json`) does not report what the in-process run reports for the same file",
+                           "cli": c, "api_before": api0, "api_after": api1, "content": o["content"], "lang": o["lang"]})
+    _tick("CLI subset")
+    for pc in pat_in:
+        decide_patterns(chk, run_patterns(pc))
+    _tick("file-pattern level")
+    for o in obs:
         if "skip" in o:
             chk.dist("obs-skipped:" + o["skip"])
             continue
@@ -656,83 +953,23 @@ def run(tier: str, seed: int, replay: str | None = None) -> int:
             continue
         if o["new_violations"]:
             chk.violation({"reason": "inserting a suppression comment made a violation appear that was not reported before", "new": o["new_violations"][:5],
-                           "content": o["content"], "lang": o["lang"], "form": o["form"], "violations_before": o["v0"], "violations_after": o["v1"]})
+                           "content": o["content"], "lang": o["lang"], "form": o["form"], "violations_before": o["v0"], "violations_after": o["v1"],
+                           "obs_case": o["obs_case"]})
             continue
         structured.append(o)
 
-    # judging: claimed vector first; the full candidate set only where something has to be explained
-    with scratch_dir("tv-c04-coq-") as wd:
-        try:
-            bad = [l for l in (judge_leaf(leafs, wd / "leaf") if leafs else []) if not all(l)]
-            for l in bad[:3]:
-                chk.correspondence_broken({"level": "leaf", "detail": f"Model/PyStr.v disagrees with CPython: {l} "
-                                           "(order: splitlines, lower, strip, tokens, split, bracket regex, space regex, start regex)"})
-            chk.traces_validated += len(leafs)
-            _tick("leaf judging")
-            first = judge(structured, wd / "p1", "(claimed_only ignore_actual)") if structured else []
-            need = [j for j, v in enumerate(first) if not all(v[0]) or any(not (row[0] and row[2]) for row in v[1:])]
-            _tick("pass 1 judging")
-            rawv = judge(raws, wd / "raw", "(claimed_only ignore_actual)") if raws else []
-            _tick("raw judging")
-            raw_bad = [j for j, v in enumerate(rawv) if any(not row[0] for row in v)]
-            mismatch = bool(raw_bad) or any(any(not row[2] for row in first[j][1:]) for j in need)
-            full_idx = list(range(len(structured))) if mismatch else need
-            full = judge([structured[j] for j in full_idx], wd / "p2", "(candidates ignore_actual)") if full_idx else []
-            raw_full = judge(raws, wd / "raw2", "(candidates ignore_actual)") if mismatch and raws else []
-            _tick(f"pass 2 judging ({len(full_idx)} cases)")
-        except RuntimeError as e:
-            chk.broken.append(f"Model:evaluation of the ignore model failed ({str(e)[:400]})")
-            first, full_idx, full, rawv, raw_full, raw_bad, mismatch = [], [], [], [], [], [], False
-
-    agree = [True] * N_CANDS
-    fullmap = dict(zip(full_idx, full))
-    for j, case in enumerate(structured):
-        if j >= len(first):
-            break
-        a = case["afile"]
-        scoped = any(l[0] != "Plain" for l in a)
-        chk.count([case["content"], case["queries"]], scoped and len(case["queries"]) > 0)
-        chk.dist("level:" + case["kind"])
-        chk.dist("queries", len(case["queries"]))
-        for l in a:
-            if l[0] != "Plain":
-                nm = l[-1]
-                chk.dist(f"directive:{l[0]}:{l[2] if l[0] != 'File' else l[1]}:{'bare' if nm is None else 'named'}")
-        if case["kind"] == "obs":
-            chk.dist(f"obs:{case['lang']}:{case['form']}:{case['how']}")
-            for p in set(case["pkgs"]):
-                chk.dist("obs-linter:" + p)
-        chk.sample({"level": case["kind"], "content": case["content"][:500], "queries": case["queries"][:6], "impl": case["impl"][:6]}, 4)
-        chk.traces_validated += len(case["queries"])
-        if j in fullmap:
-            decide(chk, case, fullmap[j], agree)
-    for j, case in enumerate(raws):
-        if j >= len(rawv):
-            break
-        chk.count([case["content"], case["queries"]], "ignore" in case["content"].lower())
-        chk.dist("level:raw")
-        chk.dist("queries", len(case["queries"]))
-        chk.traces_validated += len(case["queries"])
-        if raw_full:
-            for row in raw_full[j]:
-                for ci in range(N_CANDS):
-                    agree[ci] = agree[ci] and bool(row[ci])
-    if mismatch:
-        alt = [ci for ci in range(1, N_CANDS) if agree[ci] and ci != C_SHARED]
-        names = ["claimed"] + [f"claimed without {f}" for f in FLAGS] + ["claimed flags, all linters on the shared parser"] + \
-                [f"ideal with only {f}" for f in FLAGS] + ["ideal"]
-        if alt and C_OFF0 <= alt[0] < C_SHARED:
-            chk.notes.append("implementation no longer matches the claimed quirk vector but matches on all cases: " + names[alt[0]] +
-                             " (a listed defect is no longer observed; the theorems hold for every vector)")
-        else:
-            ex = None
-            for j in raw_bad[:1]:
-                k = next(k for k, row in enumerate(rawv[j]) if not row[0])
-                ex = {"content": raws[j]["content"], "line": raws[j]["queries"][k][0], "rule_id": raws[j]["queries"][k][1], "impl": raws[j]["impl"][k]}
-            chk.correspondence_broken({"level": "unit/observable", "detail": "Model/Ignore.v under Actual/IgnoreActual.v disagrees with the implementation "
-                                       "and no candidate vector matches all cases", "example": ex})
-            if ex:   # a concrete text on which the implementation no longer does what the validated model says
-                chk.violation({"reason": "should_ignore_violation no longer agrees with the validated model on this text (malformed-stream case)", **ex})
+    evaluate(chk, structured, raws, leafs, p2_cap)
+    if chk.broken and not chk.violations and not replay:
+        # a proof obligation / generated item / the model evaluation no longer checks: look for a concrete input on which the implementation
+        # departs from the specification as evaluated with the LAST VALIDATED generated layer (coq/Gen.expected/IgnoreGen.v.txt)
+        with scratch_dir("tv-c04-snap-") as sd:
+            th = build_snapshot(sd)
+            if th is None:
+                chk.notes.append("fallback search skipped: the snapshot of the generated layer could not be built")
+            else:
+                evaluate(chk, structured, raws, [], p2_cap, th=th, record=False,
+                         note=" [judged with the last validated generated layer, coq/Gen.expected/IgnoreGen.v.txt]")
+        _tick("fallback search with the snapshot model")
     return chk.finish()
 
 
